@@ -288,11 +288,15 @@ SUITES = {
                        sys_suite("c04-sys-faults", "c04_ok", {"n": 25, "shards": 6}, {"n": 150, "shards": 16}, extra=["--faults"]),
                        sys_suite("c04-sys-corefaults", "c04_ok", {"n": 25, "shards": 3}, {"n": 100, "shards": 16}, extra=["--faults", "--core-faults"]),
                        sys_suite("c04-sys-ent", "c04_ok", {"n": 25, "shards": 3}, {"n": 100, "shards": 16}, extra=["--impl", "ent", "--faults"]),
-                       vsys_suite("c04-vsys", "vc04_ok", {"n": 25, "shards": 2}, {"n": 60, "shards": 16})]},
+                       vsys_suite("c04-vsys", "vc04_ok", {"n": 25, "shards": 2}, {"n": 60, "shards": 16}),
+                       # cron edits between the Peek and the Pop of one volatileTaskRepo.MarkAsDispatched (VSplit.v)
+                       vsplit_suite("c04-vsys-split", "vc04_ok", {"n": 25, "shards": 2}, {"n": 60, "shards": 16})]},
     "C05": {"suites": [sys_suite("c05-sys", "c05_ok", {"n": 25, "shards": 8}, {"n": 200, "shards": 16}),
                        sys_suite("c05-sys-faults", "c05_ok", {"n": 25, "shards": 6}, {"n": 150, "shards": 16}, extra=["--faults"]),
                        sys_suite("c05-sys-ent", "c05_ok", {"n": 25, "shards": 3}, {"n": 100, "shards": 16}, extra=["--impl", "ent"]),
-                       vsys_suite("c05-vsys", "vc05_ok", {"n": 25, "shards": 4}, {"n": 60, "shards": 16})]},
+                       vsys_suite("c05-vsys", "vc05_ok", {"n": 25, "shards": 4}, {"n": 60, "shards": 16}),
+                       # cron edits between the Peek and the Pop of one volatileTaskRepo.MarkAsDispatched (VSplit.v)
+                       vsplit_suite("c05-vsys-split", "vc05_ok", {"n": 25, "shards": 2}, {"n": 60, "shards": 16})]},
     "C06": {"suites": [sys_suite("c06-sys", "c06_ok", {"n": 25, "shards": 10}, {"n": 200, "shards": 16}),
                        sys_suite("c06-sys-ent", "c06_ok", {"n": 25, "shards": 3}, {"n": 100, "shards": 16}, extra=["--impl", "ent"]),
                        # the dispatch context is cancelled between the fetch and the start of the work function: the run ends
